@@ -204,18 +204,17 @@ pub enum ConnectFail {
 
 /// Connect to a TCP entry point of the client, waiting for the client to have bound it.
 pub async fn connect_tcp_entry(addr: SocketAddr, client_done: &AtomicBool, deadline: Instant) -> Result<TcpStream, ConnectFail> {
-    let mut last = String::from("never tried");
     loop {
         if client_done.load(Ordering::SeqCst) {
             return Err(ConnectFail::ClientExited);
         }
-        match TcpStream::connect(addr).await {
+        let last = match TcpStream::connect(addr).await {
             Ok(s) => {
                 let _ = s.set_nodelay(true);
                 return Ok(s);
             }
-            Err(e) => last = format!("{:?}", e.kind()),
-        }
+            Err(e) => format!("{:?}", e.kind()),
+        };
         if Instant::now() >= deadline {
             return Err(ConnectFail::Deadline(last));
         }
@@ -224,15 +223,14 @@ pub async fn connect_tcp_entry(addr: SocketAddr, client_done: &AtomicBool, deadl
 }
 
 pub async fn connect_unix_entry(path: &std::path::Path, client_done: &AtomicBool, deadline: Instant) -> Result<UnixStream, ConnectFail> {
-    let mut last = String::from("never tried");
     loop {
         if client_done.load(Ordering::SeqCst) {
             return Err(ConnectFail::ClientExited);
         }
-        match UnixStream::connect(path).await {
+        let last = match UnixStream::connect(path).await {
             Ok(s) => return Ok(s),
-            Err(e) => last = format!("{:?}", e.kind()),
-        }
+            Err(e) => format!("{:?}", e.kind()),
+        };
         if Instant::now() >= deadline {
             return Err(ConnectFail::Deadline(last));
         }
